@@ -128,6 +128,9 @@ def judge(s, obj, plan):
                         return 'sync call %r returned %r, the result of its own command is %r (applied order %r)' % (
                             tag, rr[0][1], items.index(tag) + 1, items)
                 else:
+                    if rr[0][1] not in (1, 2, 3, 4, 5, 6, 'Timeout'):
+                        return 'sync call %r raised SyncObjException(%r): neither its result nor a failure reason nor Timeout (applied: %r)' % (
+                            tag, rr[0][1], tag in items)
                     if rr[0][1] in (1, 2, 3, 4, 6) and tag in items:
                         return 'sync call %r raised error %r but was applied' % (tag, rr[0][1])
             elif kind == 'cb':
